@@ -24,7 +24,7 @@ META = {
 }
 
 C_FILES = ["vm.c", "db_module.c", "contract_module.c", "system_module.c", "state_module.c", "crypto_module.c", "name_module.c", "util.c"]
-FUEL = 8
+FUEL = 7
 
 
 def gen_callbacks(ctx):
